@@ -3,6 +3,7 @@ package database
 import (
 	"github.com/sahilm/fuzzy"
 	"math"
+	"strings"
 )
 
 // ---- C07: typo fallback only when nothing matches, and only genuine matches ----
@@ -406,4 +407,45 @@ func VerifHarness_C07_FallbackNoTerms() {
 	verifAssert(len(res) > 0, "C07: a query occurring in order in some command is never left without a result when no threshold is set")
 	verifReach("fallback")
 	verifReach("fallback-nonempty")
+}
+
+// entries that share a command line (or a description) are still separate entries: a query that
+// occurs in order only in the text of one of them is answered with that one, wherever it stands
+func VerifHarness_C07_FallbackTwins() {
+	mk := func(cmd, desc string) Command {
+		c := Command{Command: cmd, Description: desc}
+		vFill(&c)
+		return c
+	}
+	twin := verifIntRange("twin", 0, 2)
+	cmds := []Command{mk("tar -xvf backup.tar", "unpack archive"), mk("ls", "list")}
+	switch twin {
+	case 0: // same command line, other description
+		cmds = append(cmds, mk("tar -xvf backup.tar", "extract verbosely"))
+	case 1: // same description, other command line
+		cmds = append(cmds, mk("verbosely", "unpack archive"))
+	case 2: // same everything but the keywords
+		c := Command{Command: "tar -xvf backup.tar", Description: "unpack archive", Keywords: []string{"verbosely"}}
+		vFill(&c)
+		cmds = append(cmds, c)
+	}
+	if verifBool("twinFirst") {
+		cmds[0], cmds[2] = cmds[2], cmds[0]
+	}
+	db := &Database{Commands: cmds}
+	db.BuildUniversalIndex()
+	db.buildTFIDFSearcher()
+	o := SearchOptions{Limit: 5, UseFuzzy: true, FuzzyThreshold: 0, AllPlatforms: true, UseNLP: verifBool("nlp")}
+	q := []string{"verbosly", "vrbsly"}[verifIntRange("query", 0, 1)]
+	res := db.SearchUniversal(q, o)
+	for _, r := range res {
+		verifAssert(c07Subseq(q, strings.ToLower(r.Command.Command+" "+r.Command.Description+" "+strings.Join(r.Command.Keywords, " "))), "C07: every fallback result contains the query's characters in order")
+	}
+	if twin != 2 { // (keywords are not stated to be part of the matched text)
+		verifAssert(len(res) > 0, "C07: a query occurring in order in some eligible command is never left without a result when no threshold is set")
+	}
+	verifReach("fallback")
+	if len(res) > 0 {
+		verifReach("fallback-nonempty")
+	}
 }
